@@ -54,6 +54,8 @@ def ser(v, depth=0) -> str:
         return f"L {len(v)}" + "".join(" " + ser(x, depth + 1) for x in v)
     if isinstance(v, tuple):
         return f"U {len(v)}" + "".join(" " + ser(x, depth + 1) for x in v)
+    if isinstance(v, dict):
+        return f"D {len(v)}" + "".join(" " + ser(k, depth + 1) + " " + ser(x, depth + 1) for k, x in v.items())
     if isinstance(v, type):
         return f"O type:{v.__qualname__} 0"
     if dataclasses.is_dataclass(v):
@@ -417,7 +419,50 @@ def cases_last_end(rng, n):
     return out
 
 
+def cases_scanner(rng, n):
+    """`Chart._partition_lines_by_data_section`: the header recogniser's answers are tabulated for the lines of the input, `islice` is
+    recorded (and made a list)"""
+    import itertools
+    import types
+
+    import chartparse.chart as cc
+    from chartparse.chart import Chart
+    out = []
+    atoms = ["[Song]", "[SyncTrack]", "[ExpertSingle]", "[x]", "[a]b]", "{", "}", "  {", "} ", "  0 = N 0 0", "junk", "", "[]", "[", "Resolution = 1", "[Song]", "{", "}"]
+    for _ in range(n):
+        lines = [rng.choice(atoms) for _ in range(rng.choice([0, 1, 3, 6, 10, 14]))]
+        if rng.random() < 0.5:  # mostly well-framed inputs
+            lines = []
+            for _ in range(rng.randint(0, 4)):
+                lines += [rng.choice(["[Song]", "[SyncTrack]", "[x y]", "[ExpertSingle]"])] + ([] if rng.random() < 0.1 else ["{"]) + \
+                         [rng.choice(atoms[7:15]) for _ in range(rng.randint(0, 3))] + ([] if rng.random() < 0.1 else ["}"])
+        table = []
+        for l in dict.fromkeys(lines):
+            m = Chart._header_tag_regex_prog.match(l)
+            mo = "N" if m is None else f"O Match 1 g1 {ser(m.group(1))}"
+            table.append(f"Chart._header_tag_regex_prog.match 1 {ser(l)} R {mo}")
+            if m is not None:
+                table.append(f".group 2 {mo} I 1 R {ser(m.group(1))}")
+        log = []
+
+        def islice(seq, a, b, _log=log):
+            r = list(itertools.islice(seq, a, b))
+            _log.append(f"itertools.islice 3 {ser(list(seq))} {ser(a)} {ser(b)} R {ser(r)}")
+            return r
+        shim = types.SimpleNamespace(**{k: getattr(itertools, k) for k in dir(itertools) if not k.startswith("_")})
+        shim.islice = islice
+        raw = cc.itertools
+        cc.itertools = shim
+        try:
+            real = show_result(lambda: {k: list(v) for k, v in Chart._partition_lines_by_data_section(lines).items()})
+        finally:
+            cc.itertools = raw
+        out.append((request("partitionLines", [Chart, lines], table + log), real, "partitionLines"))
+    return out
+
+
 GENERATORS = {
+    "partitionLines": cases_scanner,
     "noteFromParsedDatas": cases_note_lanes,
     "longestSustain": cases_sustain,
     "refinedSustainTuple": cases_sustain,
